@@ -105,7 +105,13 @@ def main():
     a = ap.parse_args()
     t0 = time.time()
     binp, ovdir, cleanup = build(a.property, a.tier, REPO)
-    cmd = [binp, a.property, "-tier", a.tier, "-verif", VERIF]
+    outdir = os.environ.get("VERIF_OUT", VERIF)
+    if outdir != VERIF:
+        # evaluation runs against patched trees keep their evidence / replays apart from the committed ones
+        os.makedirs(outdir, exist_ok=True)
+        import shutil
+        shutil.copy(os.path.join(VERIF, "known_findings.json"), os.path.join(outdir, "known_findings.json"))
+    cmd = [binp, a.property, "-tier", a.tier, "-verif", outdir]
     if a.replay:
         cmd += ["-replay", a.replay]
     if a.budget:
